@@ -105,7 +105,8 @@ def main():
         meta["alarms"] = [c for c, r in results.items() if r["exit"] != 0]
         d = os.path.join(args.out, args.id)
         os.makedirs(d, exist_ok=True)
-        shutil.copy(args.patch, os.path.join(d, "patch.diff"))
+        if os.path.abspath(args.patch) != os.path.abspath(os.path.join(d, "patch.diff")):
+            shutil.copy(args.patch, os.path.join(d, "patch.diff"))
         json.dump(meta, open(os.path.join(d, "meta.json"), "w"), indent=1)
         print(args.id, "alarms:", meta["alarms"])
         return 0
